@@ -338,6 +338,12 @@ class Exec(object):
             args = [self.expr(a, env) for a in e.args]
             if e.keywords:
                 raise _Unknown('keywords in `%s`' % src(e))
+            if isinstance(f, ast.Attribute) and f.attr == 'extend' and isinstance(f.value, ast.Name) and len(args) == 1:
+                base = env.get(f.value.id)        # end.extend((None, end, end)) on the still empty node, as end += [None, end, end]
+                v = args[0].slots if isinstance(args[0], Node) else args[0]
+                if isinstance(base, Node) and not base.slots and isinstance(v, list) and len(v) == 3:
+                    base.slots = list(v)
+                    return None
             if isinstance(f, ast.Attribute) and src(f.value) == 'self.map':
                 if f.attr == 'pop' and len(args) == 1:
                     if args[0] not in H.map:
